@@ -277,8 +277,6 @@ func init() {
 			b = vsched.Bounds{Preempt: 3, Tick: 1, Data: -1, Total: -1}
 			b2 = vsched.Bounds{Preempt: 2, Tick: 1, Data: -1, Total: -1}
 		}
-		// real process: a request still in flight when its server is removed by a configuration save must complete
-		c16RealProcess(c)
 		c.RunSched(c02Scenario(c, c02Params{Name: "outcomes3", Threads: 3, Reqs: 1, Bounds: b}))
 		c.RunSched(c02Scenario(c, c02Params{Name: "outcomes2-purge", Threads: 2, Reqs: 1, Purge: true, Bounds: b}))
 		c.RunSched(c02Scenario(c, c02Params{Name: "outcomes2x2", Threads: 2, Reqs: 2, Bounds: b2}))
